@@ -43,6 +43,11 @@ type HistOpts struct {
 	// optionally with a small batch before and after it. Shapes kv (the string is
 	// the last column) and flat.
 	GiantPct int
+	// MillionPer100k: per 100 000 histories, the "million rows" class: shape bits
+	// (bool columns only), page size 524288, 600000 or 1048576, one batch of
+	// exactly one page (sometimes plus three records): single bool page bodies
+	// of 64 KiB and more, level runs of half a million entries.
+	MillionPer100k int
 	// NoEdge switches off the edge-value class (on by default: in 15 percent of
 	// the histories a quarter of the scalars are edge values: min/max integers,
 	// varint boundaries, NaN, infinities, negative zero, empty strings, strings
@@ -98,6 +103,9 @@ func GenHistory(r *Rng, o HistOpts) *WriterSpec {
 	}
 	if o.BoundaryPct > 0 && r.Intn(1000) < o.BoundaryPct {
 		return genBoundary(r, o)
+	}
+	if o.MillionPer100k > 0 && r.Intn(100000) < o.MillionPer100k {
+		return genMillion(r, o)
 	}
 	if o.GiantPct > 0 && r.Intn(1000) < o.GiantPct {
 		return genGiant(r, o)
@@ -392,6 +400,32 @@ func ShrinkWriter(w *WriterSpec) []*WriterSpec {
 }
 
 // genBoundary draws a history of the boundary class (see HistOpts.BoundaryPct).
+// genMillion: see HistOpts.MillionPer100k.
+func genMillion(r *Rng, o HistOpts) *WriterSpec {
+	w := &WriterSpec{Shape: "bits", Million: true, Large: true}
+	w.Codec = Codecs[r.Pick(3, 2, 1)]
+	w.Page = []int{524288, 600000, 1 << 20}[r.Pick(3, 2, 1)]
+	sh := GetShape("bits")
+	// eight distinct records, cycled by a seeded pattern (one encoded copy each)
+	var ops []Op
+	for i := 0; i < 8; i++ {
+		ops = append(ops, AddOp(GenRec(r, sh.Type, o.Profile)))
+	}
+	n := w.Page
+	if r.Chance(1, 3) {
+		n += 3
+	}
+	w.Ops = make([]Op, 0, n+2)
+	for i := 0; i < n; i++ {
+		w.Ops = append(w.Ops, ops[r.Intn(8)])
+	}
+	w.Ops = append(w.Ops, WriteOp())
+	if !o.NoClose {
+		w.Ops = append(w.Ops, CloseOp())
+	}
+	return w
+}
+
 // genGiant: see HistOpts.GiantPct.
 func genGiant(r *Rng, o HistOpts) *WriterSpec {
 	w := &WriterSpec{Giant: true, Huge: true}
